@@ -82,6 +82,12 @@ impl Run {
 /// Run `lace <args>` in `cwd` with `stdin`. A watchdog kills the child after `limit_s` seconds
 /// (infrastructure only: a timeout is reported as such, never as a verdict by itself).
 pub fn lace(args: &[&str], cwd: &Path, stdin: &[u8], release: bool, limit_s: u64) -> Run {
+    lace_fsize(args, cwd, stdin, release, limit_s, None)
+}
+
+/// `lace()` with a limit on the size of any file the process writes (RLIMIT_FSIZE, SIGXFSZ
+/// ignored): a write beyond it is cut short and then fails, as on a disk that fills up half-way.
+pub fn lace_fsize(args: &[&str], cwd: &Path, stdin: &[u8], release: bool, limit_s: u64, fsize: Option<u64>) -> Run {
     use std::os::unix::process::ExitStatusExt;
     use std::os::unix::process::CommandExt;
     let mut cmd = Command::new(lace_bin(release));
@@ -95,8 +101,13 @@ pub fn lace(args: &[&str], cwd: &Path, stdin: &[u8], release: bool, limit_s: u64
         .stderr(Stdio::piped());
     unsafe {
         // the child must not outlive a worker that is killed or gives up
-        cmd.pre_exec(|| {
+        cmd.pre_exec(move || {
             libc::prctl(libc::PR_SET_PDEATHSIG, libc::SIGKILL);
+            if let Some(n) = fsize {
+                libc::signal(libc::SIGXFSZ, libc::SIG_IGN);
+                let lim = libc::rlimit { rlim_cur: n, rlim_max: n };
+                libc::setrlimit(libc::RLIMIT_FSIZE, &lim);
+            }
             Ok(())
         });
     }
